@@ -1157,6 +1157,33 @@ def install(w):
         ch.push(a[1])
         return mk_ok(UNIT)
 
+    @reg("tokio::sync::mpsc::Sender::send_timeout")
+    def tx_send_timeout(w, it, a, c):
+        return W.SendTimeoutFut(w, deref(it, a[0]).chan, a[1], a[2].fields[0])
+
+    @reg("tokio::sync::mpsc::Sender::reserve")
+    def tx_reserve(w, it, a, c):
+        return W.ReserveFut(deref(it, a[0]).chan)
+
+    @reg("tokio::sync::mpsc::Sender::try_reserve")
+    def tx_try_reserve(w, it, a, c):
+        ch = deref(it, a[0]).chan
+        w.acc(ch.key(), True)
+        if ch.closed:
+            return mk_err(mk_enum("TrySendError", "Closed", UNIT))
+        if ch.free == 0:
+            return mk_err(mk_enum("TrySendError", "Full", UNIT))
+        ch.free -= 1
+        return mk_ok(W.Permit(ch))
+
+    @reg("tokio::sync::mpsc::Permit::send", "Permit::send")
+    def permit_send(w, it, a, c):
+        p = a[0]
+        p.used = True
+        w.acc(p.chan.key(), True)
+        p.chan.push(a[1])
+        return UNIT
+
     @reg("tokio::sync::mpsc::Sender::blocking_send")
     def tx_blocking_send(w, it, a, c):
         f = W.SendFut(deref(it, a[0]).chan, a[1])
